@@ -236,6 +236,8 @@ func derives(v ssa.Value, pred func(ssa.Value) bool) bool {
 			return walk(x.X)
 		case *ssa.MakeInterface:
 			return walk(x.X)
+		case *ssa.TypeAssert:
+			return walk(x.X)
 		case *ssa.Extract:
 			return walk(x.Tuple)
 		case *ssa.Alloc:
@@ -555,6 +557,8 @@ func checkC14(c *Ctx) {
 	// ---------------- R6
 	checkReplicaAttach(c, "R6")
 	checkReadBufferAlias(c, "R7")
+	c.Rule("R10", "the name that is looked up in the command tables is this request's name (shared with C13.R11/C19.R11): no function returns memory of a pooled object it has given back")
+	checkPooledBytesEscape(c, "R10")
 	c.Rule("R9", "the master a write reaches is the owner of the key's slot: the key->slot function is the Redis Cluster one (the C12 obligations O1-O5 re-evaluated: CRC table and step, fold, hash-tag decision tree, routing index)")
 	{
 		exh, had := c.Extra["exhaustive"]
